@@ -132,3 +132,31 @@ Definition key_of_name (n : bytes) : option cfgkey :=
   else if eqb_bytes n [99; 111; 110; 102; 105; 103; 72; 97; 115; 104] then Some KHash else None.
 Fixpoint order_of (names : list bytes) : list cfgkey :=
   match names with [] => [] | n :: r => match key_of_name n with Some k => k :: order_of r | None => order_of r end end.
+
+(** ---- a FIRST start that ends early (an error of the mDNS responder, a power loss) ----
+    NewIPTransport: read the stored configuration (none yet: a random id is chosen), [FUuid] write
+    the id, [FDevice] create the accessory's key pair and save its entity under the id, then
+    save(): id, version, hash.  The order of these steps is read from ip_transport.go / config.go. *)
+Inductive fstep := FUuid | FDevice | FVersion | FHash.
+Definition fstep_apply (rid : bytes) (rkey : N) (h : bytes) (acc : disk) (s : fstep) : disk :=
+  match s with
+  | FUuid => mkDisk (Some rid) (d_version acc) (d_hash acc) (d_entities acc)
+  | FDevice => match find_entity (d_entities acc) rid with
+               | Some _ => acc
+               | None => mkDisk (d_uuid acc) (d_version acc) (d_hash acc) (d_entities acc ++ [(rid, rkey, true)])
+               end
+  | FVersion => mkDisk (d_uuid acc) (Some 1) (d_hash acc) (d_entities acc)
+  | FHash => mkDisk (d_uuid acc) (d_version acc) (Some h) (d_entities acc)
+  end.
+Definition first_start_cut (order : list fstep) (n : nat) (rid : bytes) (rkey : N) (h : bytes) : disk :=
+  fold_left (fstep_apply rid rkey h) (firstn n order) empty_disk.
+Definition fsteps_of_key (k : cfgkey) : fstep := match k with KUuid => FUuid | KVersion => FVersion | KHash => FHash end.
+Fixpoint fsteps_of (save : list cfgkey) (names : list bytes) : list fstep :=
+  match names with
+  | [] => []
+  | n :: r =>
+    (if eqb_bytes n [117; 117; 105; 100] then [FUuid]
+     else if eqb_bytes n [100; 101; 118; 105; 99; 101] then [FDevice]
+     else if eqb_bytes n [115; 97; 118; 101] then map fsteps_of_key save
+     else []) ++ fsteps_of save r
+  end.
